@@ -213,7 +213,7 @@ def run_one(res, obj, by, func, skipna, min_count, keep_attrs, case, tags, size,
         return
     res.compared += 1
     compare(res, case, tags, got, want, size, original=obj if case.get("leg") == "dataset" else None,
-            reduced_dims=("x", "y") if case.get("grouper") == "coord2d" else ("x",))
+            reduced_dims=tuple(case["reduced_dims"]) if case.get("reduced_dims") else (("x", "y") if case.get("grouper") == "coord2d" else ("x",)))
 
 
 def run_shard(shard):
@@ -274,7 +274,20 @@ def run_shard(shard):
                             tags = dict(leg2="dataset", grouper=grouper, func=func, skipna=str(skipna), chunked=chunked)
                             run_one(res, obj, by, func, skipna, None, keep_attrs, case, tags, 30)
                             res.nontrivial += 1
-        res.sample(dict(leg="dataset", variables=dict(a=["x", "y"], b=["x"], c=["y"], d=["t"]), groupers=["coord1d", "coord1d_nan", "ext"]))
+            # explicit dim naming a dimension the grouper lacks: a variable without the grouped dim but with that other dim (c(y))
+            # is still reduced along it; only variables with none of the reduced dims (d(t)) pass through
+            for grouper in ("coord1d", "ext"):
+                obj, by = add_grouper(ds, grouper)
+                for func in ("mean", "max", "min", "sum", "count"):
+                    for dim in (("x", "y"), ["y", "x"], ...):
+                        if dim is ... and chunked:
+                            continue
+                        rd = ["x", "y"] if dim is not ... else ["x", "y", "t"]
+                        case = dict(leg="dataset", grouper=grouper, func=func, skipna=None, keep_attrs=True, chunked=chunked, dim=str(dim), reduced_dims=rd)
+                        tags = dict(leg2="dataset-dim", grouper=grouper, func=func, skipna="None", chunked=chunked, dim=str(dim))
+                        run_one(res, obj, by, func, None, None, True, case, tags, 30, dim=dim)
+                        res.nontrivial += 1
+        res.sample(dict(leg="dataset", variables=dict(a=["x", "y"], b=["x"], c=["y"], d=["t"]), groupers=["coord1d", "coord1d_nan", "ext"], dims=["None", "(x,y)", "[y,x]", "..."]))
     return res
 
 
